@@ -31,6 +31,7 @@ impl Coster_ for ValueCoster {
 #[test]
 fn cache_at_quiescence_matches_model() {
     if !only("cache_at_quiescence_matches_model") { return; }
+    guarded("cache_at_quiescence_matches_model", || {
     let mut rng = Rng::new(31);
     for round in 0..iters(60) {
         let max_cost = 6 + rng.below(30) as i64;
@@ -77,8 +78,13 @@ fn cache_at_quiescence_matches_model() {
                 }
                 3 => { let mc = 4 + rng.below(40) as i64; c.update_max_cost(mc); script.push(format!("update_max_cost({})", mc)); }
                 4 => {
-                    if rng.below(4) == 0 { c.clear().unwrap(); script.push("clear()".into()); last.clear(); accepted.clear(); events.lock().unwrap().clear(); lookups = 0;
+                    if rng.below(4) == 0 { c.clear().unwrap(); script.push("clear()".into()); last.clear(); accepted.clear();
+                        // the clear signal travels on its own channel and the processor picks among ready channels at random: let it
+                        // consume the signal before going on, so that this oracle stays on the decided (quiescent) side of C11
+                        // (the race itself is probed by `insert_after_clear_is_kept`)
+                        while !c.clear_tx.is_empty() { std::thread::yield_now(); }
                         c.wait().unwrap();
+                        events.lock().unwrap().clear(); lookups = 0;
                         if c.len() != 0 || (c.policy.max_cost() - c.policy.cap()) != 0 { bad!("C11:store.clear.empty", &["C11", "C06"], "Cache::clear", format!("len={} used={}", c.len(), (c.policy.max_cost() - c.policy.cap())), "0 / 0".into()); }
                         if c.metrics.get_hits() != Some(0) || c.metrics.get_keys_added() != Some(0) { bad!("C11:store.clear.empty", &["C11", "C17"], "Cache::clear", "metrics not reset".into(), "all counters 0".into()); }
                         continue; }
@@ -138,6 +144,7 @@ fn cache_at_quiescence_matches_model() {
         }
         let _ = c.close();
     }
+    });
 }
 
 
@@ -161,6 +168,7 @@ impl crate::KeyBuilder for Colliding {
 #[test]
 fn colliding_keys_stay_isolated() {
     if !only("colliding_keys_stay_isolated") { return; }
+    guarded("colliding_keys_stay_isolated", || {
     let mut rng = Rng::new(32);
     for _ in 0..iters(40) {
         let c: Cache<u64, u64, Colliding> = Cache::builder(200, 1000).set_key_builder(Colliding).set_ignore_internal_cost(true).finalize().unwrap();
@@ -192,11 +200,13 @@ fn colliding_keys_stay_isolated() {
         }
         let _ = c.close();
     }
+    });
 }
 
 #[test]
 fn builder_setters_touch_only_their_field() {
     if !only("builder_setters_touch_only_their_field") { return; }
+    guarded("builder_setters_touch_only_their_field", || {
     let mut rng = Rng::new(33);
     for _ in 0..iters(300) {
         let (mut nc, mut mc, mut bi, mut bs, mut me, mut ig) = (1 + rng.below(100) as usize, 1 + rng.below(100) as i64, 64usize, 32 * 1024usize, false, false);
@@ -227,4 +237,36 @@ fn builder_setters_touch_only_their_field() {
             Err(_) => { if !want_err { fail("builder_setters_touch_only_their_field", "C20:finalize.rejects-zero-buffer-size", &["C20"], "CacheBuilder::finalize", script.join("; "), "Err".into(), "Ok".into()); return; } }
         }
     }
+    });
+}
+
+
+/// Probe for a schedule-dependent defect (DESIGN.md F10): `clear()` only *signals* the processor; if the processor has not yet
+/// consumed the signal when the caller's next insert is queued, the cleaner discards that insert (hands it to on_evict).
+#[test]
+fn insert_after_clear_is_kept() {
+    if !only("insert_after_clear_is_kept") { return; }
+    guarded("insert_after_clear_is_kept", || {
+        let c: Cache<u64, u64, TransparentKeyBuilder<u64>> = Cache::builder(200, 1000)
+            .set_key_builder(TransparentKeyBuilder::<u64>::default()).set_ignore_internal_cost(true).finalize().unwrap();
+        for round in 0..iters(400) {
+            c.insert(1, round, 1);
+            c.wait().unwrap();
+            c.clear().unwrap();
+            // clear() has returned: from here on the cache must behave like a fresh one
+            let accepted = c.insert(2, round, 1);
+            c.wait().unwrap();
+            let got = c.get(&2).map(|v| *v.value());
+            if accepted && got != Some(round) {
+                fail("insert_after_clear_is_kept", "C11:cache.clear.pending-signal-discards-later-insert", &["C11", "C04"], "Cache::clear",
+                    format!("round {}: insert(1); wait(); clear() -> Ok; insert(2, {}, cost 1) -> true; wait(); get(2)", round, round), format!("{:?}", got),
+                    format!("Some({}): nothing else was inserted and max_cost is 1000", round));
+                let _ = c.close();
+                return;
+            }
+            c.remove(&2);
+            c.wait().unwrap();
+        }
+        let _ = c.close();
+    });
 }
